@@ -206,6 +206,9 @@ func race(file, cvcFile string, timeout int) (solverAns, []solverAns) {
 // discharge runs one obligation through the portfolio.
 func discharge(c *Ctx, i int, fnKey string, tmp string, timeout int) ObResult {
 	it := &c.items[i]
+	if it.Expect == "sat" && timeout > 6 {
+		timeout = 6 // vacuity probes: a quick look is enough
+	}
 	r := ObResult{Fn: fnKey, Name: it.Name, Class: it.Class, Pos: fmt.Sprintf("%s:%d", it.Pos.Filename, it.Pos.Line), Text: it.Text, item: it, ctx: c, idx: i}
 	q := buildQuery(c, i, false, false)
 	r.QueryLen = len(q)
